@@ -352,13 +352,30 @@ def replay(pid, path):
 
 
 def setup():
+    """MANIFEST.setup_cmd: regenerate, then build the Lean targets and harness binaries of every
+    CLAIMED property (unclaimed, in-progress properties cannot break the setup)."""
     regenerate()
     idx = load_index()
-    targets = ['BddVerif'] + ['drv_' + p.lower() for p in idx]
+    claimed = [p for p in idx if idx[p].get('claimed')]
+    targets = []
+    for p in claimed:
+        targets += ['BddVerif.Props.' + p, 'drv_' + p.lower()]
     ok, out = lake_build(targets)
-    print(out[-3000:] if not ok else 'lean build ok')
-    ok2, out2 = cargo_build()
-    print(out2[-3000:] if not ok2 else 'harness build ok')
+    if not ok:
+        print(out[-3000:])
+        for p in claimed:
+            okp, outp = lake_build(['BddVerif.Props.' + p, 'drv_' + p.lower()])
+            print('lean %s: %s' % (p, 'ok' if okp else 'FAILED'))
+    else:
+        print('lean build ok (%d properties)' % len(claimed))
+    ok2 = True
+    cmd = ['cargo', 'build', '--release', '--offline'] + [x for p in claimed for x in ('--bin', p.lower())]
+    rc, out2 = sh(cmd, cwd=HARNESS, timeout=3000)
+    if rc != 0:
+        ok2 = False
+        print(out2[-3000:])
+    else:
+        print('harness build ok')
     return 0 if ok and ok2 else 1
 
 
